@@ -129,6 +129,12 @@ pub mod logger {
     //@   props C13
     //@   req[Duplicate::from.pre] val <= 6
     //@   ens[Duplicate::from.post] r == match val { 0u8 => Duplicate::None, 1u8 => Duplicate::Error, 2u8 => Duplicate::Warn, 3u8 => Duplicate::Info, 4u8 => Duplicate::Debug, 5u8 => Duplicate::Trace, _ => Duplicate::All }
+        /// (wrapper, visibility only) R48 routes the two call sites `Duplicate::from(x)` here
+        pub(crate) fn vfrom_u8(val: u8) -> (r: Duplicate)
+            requires
+                val <= 6, //@label Duplicate::from.pre.call C13
+            ensures r == match val { 0u8 => Duplicate::None, 1u8 => Duplicate::Error, 2u8 => Duplicate::Warn, 3u8 => Duplicate::Info, 4u8 => Duplicate::Debug, 5u8 => Duplicate::Trace, _ => Duplicate::All }
+        { Duplicate::duplicate_from_u8(val) }
     }
 }
 pub mod writers {
@@ -234,14 +240,28 @@ pub mod multi_writer {
     }
     impl MultiWriter {
         /// oracle: the duplication level currently stored in the AtomicU8 (adapt_duplication_to_* store `dup as u8`)
-        pub uninterp spec fn dup_err_spec(&self) -> Duplicate;
-        pub uninterp spec fn dup_out_spec(&self) -> Duplicate;
-        //@ sig src/primary_writer/multi_writer.rs impl MultiWriter / fn duplication_to_stderr
+        /// the duplication levels in force: what the two atomics hold, decoded (C13: `adapt_duplication_to_*` store `dup as u8`)
+        pub open spec fn decode(v: u8) -> Duplicate {
+            match v { 0u8 => Duplicate::None, 1u8 => Duplicate::Error, 2u8 => Duplicate::Warn, 3u8 => Duplicate::Info, 4u8 => Duplicate::Debug, 5u8 => Duplicate::Trace, _ => Duplicate::All }
+        }
+        pub closed spec fn dup_err_spec(&self) -> Duplicate { MultiWriter::decode(load_spec(atomic_id(&self.duplicate_stderr))) }
+        pub closed spec fn dup_out_spec(&self) -> Duplicate { MultiWriter::decode(load_spec(atomic_id(&self.duplicate_stdout))) }
+        /// representation invariant: the atomics hold encodings of Duplicate values only (MultiWriter::new and the adapt functions store nothing else)
+        pub closed spec fn codes_valid(&self) -> bool { load_spec(atomic_id(&self.duplicate_stderr)) <= 6 && load_spec(atomic_id(&self.duplicate_stdout)) <= 6 }
+        //@ fn src/primary_writer/multi_writer.rs impl MultiWriter / fn duplication_to_stderr
         //@   ret r
-        //@   ens r == self.dup_err_spec()
-        //@ sig src/primary_writer/multi_writer.rs impl MultiWriter / fn duplication_to_stdout
+        //@   props C13
+        //@   rule R11 1
+        //@   rule R48 1
+        //@   req[duplication_to_stderr.pre.inv] self.codes_valid()
+        //@   ens[duplication_to_stderr.post] r == self.dup_err_spec()
+        //@ fn src/primary_writer/multi_writer.rs impl MultiWriter / fn duplication_to_stdout
         //@   ret r
-        //@   ens r == self.dup_out_spec()
+        //@   props C13
+        //@   rule R11 1
+        //@   rule R48 1
+        //@   req[duplication_to_stdout.pre.inv] self.codes_valid()
+        //@   ens[duplication_to_stdout.post] r == self.dup_out_spec()
         spec fn other_id(&self) -> int { self.o_other_writer->Some_0.wid() }
         /// C13: the encoding stored is `dup as u8` (0 = None .. 6 = All; decoded by Duplicate::from)
         pub open spec fn dup_code(d: Duplicate) -> u8 {
@@ -322,6 +342,7 @@ pub mod multi_writer {
     //@   ret r
     //@   props C13
     //@   rule R4c 2
+    //@   req[MultiWriter::write.pre.inv] self.codes_valid()
     //@   req[MultiWriter::write.pre.report] forall|c: ErrorCode| #[trigger] super::util::reportable(c) <==> c is Format
     //@   req[MultiWriter::write.pre.fmt] forall|f: VFormatFn, x: &Record| #[trigger] fmt_ok(f, x) <==> (x == record && self.support_capture && (
     //@         (f == self.format_for_stderr && dup_allows(self.dup_err_spec(), record_level(record)))
@@ -349,6 +370,7 @@ pub mod multi_writer {
     //@ fn src/primary_writer/multi_writer.rs impl LogWriter for MultiWriter / fn flush
     //@   ret r
     //@   props C04
+    //@   req[MultiWriter::flush.pre.inv] self.codes_valid()
     //@   ens[MultiWriter::flush.post.file] r is Ok && self.o_file_writer is Some ==> fw_flushed() && fw_flush_result() is Ok
     //@   ens[MultiWriter::flush.post.other] r is Ok && self.o_other_writer is Some ==> ow_flushed(self.other_id()) && ow_flush_result(self.other_id()) is Ok
     //@   ens[MultiWriter::flush.post.duplicates] r is Ok ==> (!(self.dup_err_spec() is None) ==> super::stderr_flushed()) && (!(self.dup_out_spec() is None) ==> super::stdout_flushed())
